@@ -1,0 +1,44 @@
+//go:build verif
+
+// Contracts for the HTTP API (machine-checked by /verif's VC generator;
+// comment-only, adds no code).
+package api
+
+// A request is authenticated for a session when it carries the non-empty
+// secret that was handed out when exactly that session was created. Only
+// sessions created through the API (Reply == 0) can be named at all.
+//@ pred authed(api *HTTP, r *http.Request, sid robust.Id) = r.Header.Get("X-Session-Auth") != "" && sid.Reply == 0 && sid in api.ircServerUnlocked.sessions && api.ircServerUnlocked.sessions[sid].auth == r.Header.Get("X-Session-Auth")
+//@ pred serverOK(api *HTTP) = api != nil && api.ircServerUnlocked != nil && api.ircServerUnlocked.sessions != nil && api.ircServerUnlocked.sessionsMu != nil && api.ircServerUnlocked.lastProcessedMu != nil && api.ircServerUnlocked.ConfigMu != nil && sessShape(api.ircServerUnlocked)
+
+//@ func HTTP.ircServer
+//@   requires h != nil
+//@   ensures result == h.ircServerUnlocked
+//@   modifies
+
+// C11: the only producer of an authenticated session id. C17: the lookup error is passed on unchanged.
+//@ func HTTP.session
+//@   requires serverOK(api) && r != nil
+//@   ensures authed: result1 == nil ==> authed(api, r, result0)
+//@   ensures refused: result1 != nil ==> result0.Id == 0 && result0.Reply == 0
+//@   ensures notyet: result1 == ircserver.ErrSessionNotYetSeen ==> (exists x uint64 :: !(mk("robust.Id", x, 0) in api.ircServerUnlocked.sessions) && api.ircServerUnlocked.lastProcessed.Id <= x)
+//@   ensures gone: result1 == ircserver.ErrNoSuchSession ==> (exists x uint64 :: !(mk("robust.Id", x, 0) in api.ircServerUnlocked.sessions) && api.ircServerUnlocked.lastProcessed.Id > x)
+//@   modifies
+
+// C17: "not yet seen" on a follower is proxied to the leader, never answered 404; every other
+// failure is 404. C11: success hands out an authenticated id.
+//@ func HTTP.sessionOrProxy
+//@   requires serverOK(api) && r != nil && api.raftNode != nil
+//@   ensures authed: result1 == nil ==> authed(api, r, result0)
+//@   assert@call http.Error#0 : lagging: callarg2 == 404 ==> (err != ircserver.ErrSessionNotYetSeen || api.raftNode.State() == raft.Leader)
+//@   assert@call http.Error#0 : failed: err != nil
+
+// GetMessages is answered by any node: a session this node has not seen yet is 500 (try elsewhere),
+// never 404. Nothing is registered, started or written before session() succeeded, and only
+// messages addressed to this session (or pings) are written (C11, C12).
+//@ func HTTP.handleGetMessages
+//@   requires serverOK(api) && r != nil && w != nil && api.raftNode != nil
+//@   assert@call http.Error#0 : notyet500: callarg2 != 404
+//@   assert@call http.Error#1 : only-when-not-lagging: err != nil && err != ircserver.ErrSessionNotYetSeen
+//@   assert@call setGetMessagesRequests#0 : authed: err == nil && authed(api, r, session)
+//@   assert@call json.Encoder.Encode#0 : authed: err == nil
+//@   assert@call json.Encoder.Encode#0 : addressed: msg.Type == robust.Ping || msg.InterestingFor[session.Id]
